@@ -74,6 +74,7 @@ fn verifier_matrix(args: &Args, rep: &mut Report) {
     let mut rng = Rng::derive(args.seed, 0xC10);
     let mut cache: HashMap<(Alg, i64), Gen> = HashMap::new();
     let server_name = rustls_pki_types::ServerName::try_from("localhost").unwrap();
+    let pinned_valid: Vec<u8> = gen_cert(Alg::P256, NB - 2, 2 * DAY).der;
     let mut run_point = |rep: &mut Report, cache: &mut HashMap<(Alg, i64), Gen>, alg: Alg, len: i64, now: i64, set_kind: u8, rng: &mut Rng, nowpos: &str| {
         let g = cache.entry((alg, len)).or_insert_with(|| gen_cert(alg, NB, len));
         let h = sha256(&g.der);
@@ -92,15 +93,54 @@ fn verifier_matrix(args: &Args, rep: &mut Report) {
         };
         let pinned = matches!(set_kind, 1 | 3);
         let want = pinned && now >= NB && now <= NB + len && len <= 14 * DAY && alg == Alg::P256;
-        let v = ServerHashVerification::new(set);
+        // the pin set is a set: how it was filled (constructor, add() in any order) is irrelevant
+        let fill = rng.below(3);
+        let v = match fill {
+            0 => ServerHashVerification::new(set.clone()),
+            1 => {
+                let mut v = ServerHashVerification::new(Vec::<Sha256Digest>::new());
+                let mut order = set.clone();
+                for i in (1..order.len()).rev() {
+                    order.swap(i, rng.usize(0, i));
+                }
+                for d in order {
+                    v.add(d);
+                }
+                v
+            }
+            _ => {
+                let k = set.len() / 2;
+                let mut v = ServerHashVerification::new(set[k..].to_vec());
+                for d in set[..k].iter().rev() {
+                    v.add(d.clone());
+                }
+                v
+            }
+        };
         let der = rustls_pki_types::CertificateDer::from(g.der.clone());
-        let got = v.verify_server_cert(&der, &[], &server_name, &[], rustls_pki_types::UnixTime::since_unix_epoch(Duration::from_secs(now as u64)));
-        rep.eval(format!("verifier|{alg:?}|{}|now={nowpos}|set={set_kind}", len_class(len)));
+        // what else the server puts in its chain never matters: only the leaf is judged.  In
+        // particular a *pinned* certificate presented as an intermediate vouches for nothing.
+        let inter_kind = rng.below(4);
+        let intermediates: Vec<rustls_pki_types::CertificateDer> = match inter_kind {
+            0 | 1 => vec![],
+            2 => vec![rustls_pki_types::CertificateDer::from(pinned_valid.clone())],
+            _ => vec![rustls_pki_types::CertificateDer::from(vec![0x30, 0x03, 0x02, 0x01, 0x00]), rustls_pki_types::CertificateDer::from(pinned_valid.clone())],
+        };
+        // (the set always also pins `pinned_valid`, a valid 1-day P-256 certificate, when it is used as an intermediate)
+        let v = if inter_kind >= 2 {
+            let mut v = v;
+            v.add(Sha256Digest::new(sha256(&pinned_valid)));
+            v
+        } else {
+            v
+        };
+        let got = v.verify_server_cert(&der, &intermediates, &server_name, &[], rustls_pki_types::UnixTime::since_unix_epoch(Duration::from_secs(now as u64)));
+        rep.eval(format!("verifier|{alg:?}|{}|now={nowpos}|set={set_kind}|fill={fill}|chain={inter_kind}", len_class(len)));
         if got.is_ok() != want {
             let failing: Vec<&str> = [(!pinned, "hash-not-pinned"), (now < NB, "not-yet-valid"), (now > NB + len, "expired"), (len > 14 * DAY, "validity>14d"), (alg != Alg::P256, "not-P256")].iter().filter(|(b, _)| *b).map(|(_, n)| *n).collect();
             rep.violation(
                 format!("C10|verifier|{}|{}", if got.is_ok() { "accepted" } else { "refused" }, if failing.is_empty() { "all-conditions-hold".to_string() } else { failing.join("+") }),
-                format!("verify_server_cert = {:?}; key {alg:?}, validity {len} s, now = not_before{:+} s, pinned = {pinned}", got.as_ref().map(|_| "Ok").map_err(|e| e.to_string()), now - NB),
+                format!("verify_server_cert = {:?}; key {alg:?}, validity {len} s, now = not_before{:+} s, pinned = {pinned}, pin set filled by method {fill}, {} intermediate(s){}", got.as_ref().map(|_| "Ok").map_err(|e| e.to_string()), now - NB, intermediates.len(), if inter_kind >= 2 { " incl. a pinned, valid certificate" } else { "" }),
                 J::obj([("alg", J::s(format!("{alg:?}"))), ("validity_secs", J::Int(len as i128)), ("now_minus_not_before", J::Int((now - NB) as i128)), ("set_kind", J::u(set_kind as u64))]),
             );
         }
@@ -153,8 +193,14 @@ fn verifier_matrix(args: &Args, rep: &mut Report) {
         let mut history = vec![];
         for step in 0..rng.usize(3, 10) {
             // the first call is biased towards an acceptance, the rest roam around the window
-            let (alg, len, pinned) = if step == 0 { pool[0] } else { *rng.pick(&pool) };
-            let now = if step == 0 {
+            let (alg, len, pinned) = if step == 0 || (hi % 3 == 0 && step == 1) { pool[0] } else { *rng.pick(&pool) };
+            let now = if step == 0 && hi % 3 == 0 {
+                // accepted moments before it expires (or right when it becomes valid) ...
+                if hi % 2 == 0 { NB + len - rng.below(100) as i64 } else { NB + rng.below(100) as i64 }
+            } else if step == 1 && hi % 3 == 0 {
+                // ... and presented again moments after (before) that instant
+                if hi % 2 == 0 { NB + len + 1 + rng.below(100) as i64 } else { NB - 1 - rng.below(100) as i64 }
+            } else if step == 0 {
                 NB + len / 2
             } else {
                 match rng.below(5) {
